@@ -84,8 +84,9 @@ def directed_search(ck, pats, cs):
     from oracles import selspec
     seen = set()
     for (op, v, flag, name) in cs:
-        if (op, v, flag, name) in seen or (flag in ('i', 'I') and not v.isascii()):
-            continue
+        insensitive = flag in ('i', 'I') or (name.lower() == 'type' and flag not in ('s', 'S'))
+        if (op, v, flag, name) in seen or (insensitive and not v.isascii()):
+            continue          # case-insensitive comparison is judged on ASCII values only
         seen.add((op, v, flag, name))
         variants = [v, v + '\n', '\n' + v, v + 'x', 'x' + v, v.upper(), v.lower(), ' ' + v + ' ', v + '-z', 'a ' + v + ' b', '',
                     v + '\r', v + ' ', v[:-1], v[1:], v + v, 'x' + v + '\n', v.swapcase()]
